@@ -367,6 +367,11 @@ func (k *ASReq) Marshal() ([]byte, error) {
 		MsgType: k.MsgType,
 		PAData:  k.PAData,
 	}
+	if len(m.PAData) == 0 {
+		// no pre-authentication data: the element is left out, not sent as an empty list (RFC 4120 5.4.1:
+		// padata is a SEQUENCE OF PA-DATA that is "NOT empty")
+		m.PAData = nil
+	}
 	b, err := k.ReqBody.Marshal()
 	if err != nil {
 		var mk []byte
@@ -392,6 +397,11 @@ func (k *TGSReq) Marshal() ([]byte, error) {
 		PVNO:    k.PVNO,
 		MsgType: k.MsgType,
 		PAData:  k.PAData,
+	}
+	if len(m.PAData) == 0 {
+		// no pre-authentication data: the element is left out, not sent as an empty list (RFC 4120 5.4.1:
+		// padata is a SEQUENCE OF PA-DATA that is "NOT empty")
+		m.PAData = nil
 	}
 	b, err := k.ReqBody.Marshal()
 	if err != nil {
